@@ -1,4 +1,5 @@
 import Pyrtma.Proofs.ManagerSimCtl
+import Pyrtma.Proofs.ManagerSimOwedData
 /-!
 # Refinement of the history-based Spec by the manager model M1 — part 4b: data frames (C01)
 
@@ -121,7 +122,8 @@ include ok hfuel hperm inv hm hget hal he hb q hc hd hs
     and so does C14's "a logger is waited for" -/
 theorem seg_data (hn : (rd.h.mtype == cfg.mtSetName) = false) (hr : (rd.h.mtype == cfg.mtModuleReady) = false) :
     SegGoal cfg a rd evs s2 ∧
-    (∀ X : A, X.mods = a.mods → X.fail = a.fail → Spec.checkLoggerWaited cfg X rd evs = X) := by
+    (∀ X : A, X.mods = a.mods → X.fail = a.fail → Spec.checkLoggerWaited cfg X rd evs = X) ∧
+    Spec.checkData cfg (Spec.afterBuf cfg a rd) rd.h evs = Spec.afterBuf cfg a rd := by
   rw [readOne_whole cfg s rd inv.top.good.ok m hm hb, pm_data cfg _ _ _ hc hd hs hn hr] at q
   obtain ⟨Z, hZ, hseg⟩ := Spec.segment_data cfg a rd evs am hget hal hb hc hd hs hn hr
   obtain ⟨fr, hfr⟩ : ∃ fr : Frame, fr = Frame.mk rd.h.mtype rd.h.src rd.h.dest rd.h.destHost rd.h.nbytes.toNat (.data rd.h.k) :=
@@ -246,8 +248,10 @@ theorem seg_data (hn : (rd.h.mtype == cfg.mtSetName) = false) (hr : (rd.h.mtype 
             ((recipients cfg sL fr.mtype).filter (elig fr sL)).filter (· == au.uid) := by congr 1
         rw [this, nodup_count_eq _ _ ((hta ht).filter _), if_pos (List.mem_filter.mpr ⟨hinR, hel⟩)]
     · cases hau
-  have hdata : Spec.ErrExt ["C14"] (Spec.afterBuf cfg a rd) (Spec.checkData cfg (Spec.afterBuf cfg a rd) rd.h evs) := by
-    refine Spec.checkData_c01 cfg _ rd.h evs (by rw [hdm]) ?_ c3 ?_
+  have hdataEq : Spec.checkData cfg (Spec.afterBuf cfg a rd) rd.h evs = Spec.afterBuf cfg a rd := by
+    refine Spec.checkData_ok cfg _ rd.h evs (by rw [hdm]) ?_ c3 ?_
+      (fun _ hin hg => data_c5 ok hfuel hperm hs0 t0 rd.h fr hft (by rw [hfr]) hfd hfh s2 evs he
+        (by rw [hsLdef]; exact q.nest) hin hg)
     · intro p hp
       have hp1 : p ∈ Spec.sends evs := by rw [hdm] at hp; exact (List.mem_filter.mp hp).1
       have hpb : p.2.2.body = Body.data rd.h.k := by
@@ -315,11 +319,13 @@ theorem seg_data (hn : (rd.h.mtype == cfg.mtSetName) = false) (hr : (rd.h.mtype 
           refine ⟨au, List.mem_filter.mpr ⟨List.mem_filter.mpr ⟨Spec.get_mem hg, ?_⟩, ?_⟩, by rw [hauid, hpu1]; simp⟩
           · simp [halv, (subscribed_iff hsmu rd.h.mtype ht).mpr hsubs]
           · rw [hauid]; simp [hel, hnfA]
+  have hdata : Spec.ErrExt ["C14"] (Spec.afterBuf cfg a rd) (Spec.checkData cfg (Spec.afterBuf cfg a rd) rd.h evs) := by
+    rw [hdataEq]; exact Spec.ErrExt.refl _ _
   have hW : Spec.CoreExt others (Spec.afterBuf cfg a rd) (Spec.checkDepartures cfg Z none evs) :=
     ((ext_others hdata).trans (core_others hZ)).trans (ext_others (dep_ext hs0 t0 n q evs he
       (hdata.core.trans (hZ.mono (by simp))) none dt.dep (fun u hu => by cases hu)))
   exact ⟨segGoal_of hseg rfl (seg_close hs0 t0 n q evs he hW),
-    fun X hXm hXf => Spec.checkLoggerWaited_of_c01 cfg X (Spec.afterBuf cfg a rd) rd evs hXm hXf c3⟩
+    fun X hXm hXf => Spec.checkLoggerWaited_of_c01 cfg X (Spec.afterBuf cfg a rd) rd evs hXm hXf c3, hdataEq⟩
 
 end data
 
